@@ -74,9 +74,11 @@ type recorder struct {
 	userFds       []int        // descriptors handed to the user by Conn.Dup: the framework must never touch them
 	injectedAcc   []string     // faults injected into the main reactor's accept4 calls
 	acceptFatal   bool         // a fatal accept error was injected: the engine is expected to shut down
-	shutdownAsked bool         // a callback returned Shutdown: the engine is expected to stop
-	fdCid         map[int]int  // fd -> gid
-	gidM          map[int]int  // gid -> mcid
+	startFault    *inject      // focus startfault: a system call of the start sequence that is made to fail (any thread)
+	startFaultHit bool
+	shutdownAsked bool        // a callback returned Shutdown: the engine is expected to stop
+	fdCid         map[int]int // fd -> gid
+	gidM          map[int]int // gid -> mcid
 	nloops        int
 	accCount      int            // accepts seen on the acceptor thread (round-robin target = accCount % nloops)
 	otherG        map[int64]bool // goroutines of loops 1..n-1
@@ -318,6 +320,14 @@ func (r *recorder) Before(c *vunix.Call) {
 	case "epoll_ctl":
 		r.checkOwned(c, c.Fd, g)
 		r.checkOwned(c, c.Arg2, g)
+	}
+	if sf := r.startFault; sf != nil && !r.startFaultHit && c.Name == sf.name && (c.Name != "epoll_ctl" || c.Arg == unix.EPOLL_CTL_ADD) {
+		k := r.counters["start:"+sf.name]
+		r.counters["start:"+sf.name] = k + 1
+		if k == sf.index {
+			c.Skip, c.Ret, c.Err = true, -1, errnoOf(sf.kind)
+			r.startFaultHit = true
+		}
 	}
 	if r.otherG[g] && c.Name == "epoll_wait" {
 		return
